@@ -226,23 +226,73 @@ func TestVerifC17VcJwt(t *testing.T) {
 					}
 				}
 				_, found := ldSource[kid]
-				res := "reject"
-				func() {
-					defer func() {
-						if p := recover(); p != nil {
-							res = "panic"
+				runLd := func(name, class, by string, doc interface{}, proofObj bool, nproofs int) {
+					res := "reject"
+					func() {
+						defer func() {
+							if p := recover(); p != nil {
+								res = "panic"
+							}
+						}()
+						if err := svld.jsonldProof(doc, issuer, nil); err == nil {
+							res = "accept"
 						}
 					}()
-					if err := svld.jsonldProof(res0, issuer, nil); err == nil {
-						res = "accept"
+					b, _ := json.Marshal(vVcOp{Op: "consume", C: "vcld", Name: name, Class: class, HAlg: "ES256", By: by, Issuer: issuer,
+						V: map[string]interface{}{"vm": kid, "keyfound": found, "validat": true, "keyalg": "ES256", "canon": true, "parts": 2, "sigdecodes": true,
+							"verified": true, "proofobj": proofObj, "nproofs": nproofs}})
+					ops.Write(b)
+					ops.WriteByte('\n')
+					impl.WriteString(res + "\n")
+					n++
+				}
+				runLd(name, class, by, res0, true, 1)
+				if who != "issuer" {
+					continue
+				}
+				// --- `proof` as an ARRAY (a proof set): 0, 1, 2, 3 entries with valid / invalid / foreign proofs in every position.
+				// Exactly one signature: anything but a single proof must be refused.
+				signedDoc := res0.(proof.SignedDocument)
+				validProof := signedDoc["proof"]
+				broken := map[string]interface{}{}
+				pb, _ := json.Marshal(validProof)
+				_ = json.Unmarshal(pb, &broken)
+				if j, ok := broken["jws"].(string); ok && len(j) > 10 {
+					broken["jws"] = j[:len(j)-6] + "AAAAAA"
+				}
+				malloryKid := newParty("did:web:example.com:iam:mallory")
+				res1, err := proof.NewLDProof(proof.ProofOptions{Created: now.Add(-time.Second), ProofPurpose: "assertionMethod"}).Sign(audit.TestContext(), document, signSuite, malloryKid)
+				if err != nil {
+					t.Fatal(err)
+				}
+				foreign := res1.(proof.SignedDocument)["proof"]
+				sets := []struct {
+					name  string
+					set   []interface{}
+					class string
+				}{
+					{"proofs-empty-array", []interface{}{}, "zero-sig"},
+					{"proofs-array-of-one-valid", []interface{}{validProof}, "proof-array-one"},
+					{"proofs-valid-broken", []interface{}{validProof, broken}, "multi-sig"},
+					{"proofs-broken-valid", []interface{}{broken, validProof}, "multi-sig"},
+					{"proofs-valid-valid", []interface{}{validProof, validProof}, "multi-sig"},
+					{"proofs-valid-foreign", []interface{}{validProof, foreign}, "multi-sig"},
+					{"proofs-foreign-valid", []interface{}{foreign, validProof}, "multi-sig"},
+					{"proofs-valid-valid-broken", []interface{}{validProof, validProof, broken}, "multi-sig"},
+					{"proofs-valid-null", []interface{}{validProof, nil}, "multi-sig"},
+				}
+				for _, ps := range sets {
+					nm := issuerName + "-" + ps.name
+					if len(only) > 0 && !only["vcld|"+nm] {
+						continue
 					}
-				}()
-				b, _ := json.Marshal(vVcOp{Op: "consume", C: "vcld", Name: name, Class: class, HAlg: "ES256", By: by, Issuer: issuer,
-					V: map[string]interface{}{"vm": kid, "keyfound": found, "validat": true, "keyalg": "ES256", "canon": true, "parts": 2, "sigdecodes": true, "verified": true}})
-				ops.Write(b)
-				ops.WriteByte('\n')
-				impl.WriteString(res + "\n")
-				n++
+					d := map[string]interface{}{}
+					for k, v := range signedDoc {
+						d[k] = v
+					}
+					d["proof"] = ps.set
+					runLd(nm, ps.class, "signer", d, false, len(ps.set))
+				}
 			}
 		}
 	}
